@@ -225,13 +225,23 @@ def amount_cases(draw):
     strs = []
     for _ in range(n):
         k = draw(st.integers(0, 9))
-        if k < 6:
+        if k < 5:
             ip = draw(st.one_of(st.integers(0, 21000000), st.sampled_from([0, 1, 20999999, 21000000, 92233720368])))
             fd = draw(st.integers(0, 8))
             frac = ''.join(str(draw(st.integers(0, 9))) for _ in range(fd))
             strs.append(str(ip) + ('.' + frac if fd else ''))
+        elif k < 7:
+            # sparse digits: long runs of zeros around the decimal point with a few non-zero digits (100.00000001, 20000000.00000001, 1000.0000001)
+            dig = st.sampled_from('0000000000000012359')
+            il = draw(st.integers(1, 11))
+            ip = draw(st.sampled_from('123459')) + ''.join(draw(dig) for _ in range(il - 1)) if draw(st.integers(0, 5)) else '0'
+            fd = draw(st.sampled_from([0, 1, 6, 7, 8, 8, 8, 8]))
+            frac = ''.join(draw(dig) for _ in range(fd))
+            if fd and draw(st.booleans()):
+                frac = frac[:-1] + draw(st.sampled_from('1379'))
+            strs.append(ip + ('.' + frac if fd else ''))
         elif k < 8:
-            strs.append(draw(st.sampled_from(['0', '0.1', '21000000', '0.00000001', '0.000000001', '0.100000000', '1.123456789', '92233720368.54775807', '92233720368.54775808', '0.0', '1e0', '1e-8', '1e-9'])))
+            strs.append(draw(st.sampled_from(['0', '0.1', '100.00000001', '1000.0000001', '20000000.00000001', '10000000000', '10000000001', '1000000000.00000001', '21000000', '0.00000001', '0.000000001', '0.100000000', '1.123456789', '92233720368.54775807', '92233720368.54775808', '0.0', '1e0', '1e-8', '1e-9'])))
         else:
             strs.append(draw(st.sampled_from(['', '+1', '.5', '1.', '01', '-1', '- 1', '1 ', ' 1', '1,5', 'abc', '0x10', '1.2.3', '--1'])))
     return strs
@@ -266,6 +276,8 @@ def check_amounts(strs, ctx):
     case = dict(kind='amounts', amounts=strs)
     plain = all(re.fullmatch(r'(0|[1-9][0-9]*)(\.[0-9]{1,8})?', s) for s in strs)
     ctx.case(text, any('.' in s for s in strs) or not plain, case, 'amounts' + (':plain' if plain else ':boundary'))
+    if any(re.search(r'[1-9][0-9]*0{9}[1-9]', x.replace('.', '')) for x in strs if exact_amount(x) is not None):
+        ctx.count('amount-with-9-zero-run-inside')
     r = ask(text, amounts=1)
     if 'crash' in r or 'exit' in r:
         raise Violation(case, 'amount parsing died: %r' % r, observed=r)
